@@ -30,8 +30,8 @@ CLAIMED = {
 		note='Trusted: h5py store model, json round trip, open/read. Bounded only: _init_datasets, create, HDF5Signatures.__init__ reading, filters.',
 		design='3/C12'),
 	'C05': dict(
-		text='_jaccarddist_parallel (real .pyx text, three type instantiations) is verified with a loop invariant "out[r] = D(query, r-th segment)" plus prange frame obligations (every iteration writes only its own cell, reads no written array, written and read views are different objects, assigned scalars are declared locals), which is what makes all interleavings and thread counts equal to the sequential result; jaccarddist_array is verified on both branches (concatenated fast path through the kernel contract incl. the bounds/dtype casts, and the per-item loop) for caller-supplied and allocated buffers incl. the ValueError cases; chunk_slices (generator; coverage of 0..n-1) and num_pairs. jaccarddist_matrix is verified (4 instances: all references / explicit index selection x one chunk / chunked; nested loop invariants "every column before the current chunk is complete" and "rows before the current query are complete for this chunk") over an abstract model: cell (i, c) = DV(queries[i], refs[ref_indices[c]]) for every selection with repeats in any order and every chunk size, ValueError iff chunksize <= 0; the reference chunk obeys the C20 indexing contract and the row views write through. jaccarddist_pairwise (square mirror, condensed offsets), caller-supplied buffers and plain-list references of the matrix function are covered by a BOUNDED stand-in only (bitwise comparison with a double loop over containers, chunk sizes, EVERY index selection of length <= 4 over 5 references, 1..16 threads, repeated runs).',
-		note='Trusted: C02 base (D as the kernel value), OpenMP/Cython prange semantics, NumPy views, abstract collection/2-d array model for the matrix function. Bounded only: pairwise, caller buffers, plain-list references.',
+		text='_jaccarddist_parallel (real .pyx text, three type instantiations) is verified with a loop invariant "out[r] = D(query, r-th segment)" plus prange frame obligations (every iteration writes only its own cell, reads no written array, written and read views are different objects, assigned scalars are declared locals), which is what makes all interleavings and thread counts equal to the sequential result; jaccarddist_array is verified on both branches (concatenated fast path through the kernel contract incl. the bounds/dtype casts, and the per-item loop) for caller-supplied and allocated buffers incl. the ValueError cases; chunk_slices (generator; coverage of 0..n-1) and num_pairs. jaccarddist_matrix is verified (4 instances: all references / explicit index selection x one chunk / chunked; nested loop invariants "every column before the current chunk is complete" and "rows before the current query are complete for this chunk") over an abstract model: cell (i, c) = DV(queries[i], refs[ref_indices[c]]) for every selection with repeats in any order and every chunk size, ValueError iff chunksize <= 0; the reference chunk obeys the C20 indexing contract and the row views write through. jaccarddist_pairwise is verified over the same model (4 instances: square / flat x all / index selection; invariant "rows before i are complete, with their mirror cells, and the diagonal is zero"; the flat layout through the recursively defined row offset poff(n, a), proved equal to the squareform offset n*a - a(a+1)/2 by an induction lemma; every write lands inside the buffer). Caller-supplied buffers and plain-list arguments of the matrix / pairwise functions are covered by a BOUNDED stand-in only (bitwise comparison with a double loop over containers, chunk sizes, EVERY index selection of length <= 4 over 5 references, 1..16 threads, repeated runs).',
+		note='Trusted: C02 base (D as the kernel value), OpenMP/Cython prange semantics, NumPy views, abstract collection/2-d array model for the matrix function. Bounded only: caller buffers, plain-list references.',
 		design='3/C05'),
 	'C20': dict(
 		text='AdvancedIndexingMixin.__getitem__ is verified for every index kind (int, all eight None/int slice shapes, ill-typed slice fields, step 0, integer arrays of seven dtypes, boolean masks, float arrays, lists, the empty list) against an abstract sequence: result item j = item norm(index[j]) (Python negative-index rule), slices select range(*indices(n)), masks select the non-zero positions in order, IndexError/TypeError/ValueError exactly as a list/NumPy would, and the caller\'s index array is unchanged; _check_index, _getitem_slice, _getitem_bool_array separately. The NumPy contract for np.add carries the fixed width of the output dtype: on the original tree the int8/int16/int32 instances failed (wrap-around), the bounded run replayed it (130 signatures, int8 index -1), a fix: commit widened the copy, and all instances now discharge. The concrete hooks of SignatureList / ConcatenatedSignatureArray are verified to refine the abstract ones; the remaining container code is bounded only (plain-list differential, labelled). A second defect was found by the bounded run (seed sweep): uint64 index arrays / scalars raised on concatenated and HDF5-backed collections (uint64 + int promoted to float); repaired by a second fix: commit, and every integer dtype is now enumerated as array and scalar on every container.',
